@@ -423,7 +423,9 @@ var c06BadRemotes = []string{"", "garbage", "192.0.2.7", "[::1]", "::1:80", "[fe
 var c06IPTexts = []string{"64:ff9b::c633:6404", "2002:c633:6404::1", "::198.51.100.4", "192.0.2.33", "2001:db8::2", "::ffff:10.0.0.1", "::ffff:a00:1", "0.0.0.0", "::", "::1", "1.2.3.4", "255.255.255.255",
 	"fe80::1", "2001:DB8:0:0:0:0:0:FFFF", "0:0:0:0:0:ffff:102:304"}
 var c06BadIPTexts = []string{"", "garbage", "1.2.3", "1.2.3.4.5", "256.1.1.1", "01.2.3.4", "1.2.3.4 ", " 1.2.3.4", "fe80::1%eth0", "::g", "1.2.3.4:80", "[::1]",
-	"2001:db8::1::2", "12345::", "0x1.2.3.4", "1.2.3.-4", "١.2.3.4"}
+	"2001:db8::1::2", "12345::", "0x1.2.3.4", "1.2.3.-4", "١.2.3.4",
+	// one and two bytes of punctuation: brackets, separators, what is left of a literal that was cut
+	"[", "]", "[]", "[[", "[x", "[::1", "::1]", ":", ".", "%", "/", "-", "0", "a", "::ffff:", "1.", ".1", "[:"}
 
 func c06Pick(rng *rand.Rand, l []string) string { return l[rng.Intn(len(l))] }
 
